@@ -347,12 +347,21 @@ func TestVerifC03(t *testing.T) {
 				case e := <-sub.Out():
 					switch v := e.(type) {
 					case *protocoltypes.GroupMetadataEvent:
+						if v == nil || v.Metadata == nil {
+							// an event without content: something was emitted for an entry that did not open
+							metaEvents = append(metaEvents, protocoltypes.EventType_EventTypeUndefined)
+							continue
+						}
 						if v.Metadata.EventType == protocoltypes.EventType_EventTypeGroupMetadataPayloadSent && strings.Contains(string(v.Event), string(marker)) {
 							seen++
 							continue
 						}
 						metaEvents = append(metaEvents, v.Metadata.EventType)
 					case EventMetadataReceived:
+						if v.MetaEvent == nil || v.MetaEvent.Metadata == nil {
+							recvEvents = append(recvEvents, protocoltypes.EventType_EventTypeUndefined)
+							continue
+						}
 						if v.MetaEvent.Metadata.EventType == protocoltypes.EventType_EventTypeGroupMetadataPayloadSent && strings.Contains(string(v.MetaEvent.Event), string(marker)) {
 							seen++
 							continue
